@@ -2205,3 +2205,79 @@ BY_TRAIT[("core::iter::traits::iterator::Iterator", "collect")] = iter_collect
 BY_NAME["core::option::Option::Some"] = lambda m, ref, args, t, sp: some(args[0])
 BY_NAME["core::result::Result::Ok"] = lambda m, ref, args, t, sp: ok(args[0])
 BY_NAME["core::result::Result::Err"] = lambda m, ref, args, t, sp: err(args[0])
+
+
+def conv_round(mode):
+    """easy_cast::ConvFloat::{conv_ceil, conv_floor, conv_trunc}: like conv_nearest with another
+    rounding; literal arguments are evaluated, symbolic ones become a bounded integer symbol"""
+    import math
+
+    def h(m, ref, args, t, sp):
+        v = args[0]
+        full = ref.get("resolved", ref["full"])
+        import re
+        mm = re.search(r"ConvFloat<f64> for (\w+)>", full)
+        dst = mm.group(1) if mm else "i64"
+        lo, hi = INT_RANGE.get(dst, (-INF, INF))
+        f = {"ceil": math.ceil, "floor": math.floor, "trunc": math.trunc}[mode]
+        if is_float(v) and F.is_lit(v):
+            x = F.litval(v)
+            if x != x or abs(x) == float("inf") or not (lo <= f(x) <= hi):
+                raise PathEnd("panic", {"kind": "easy_cast-range", "span": sp, "fn": m.stack[-1] if m.stack else None,
+                                        "stack": list(m.stack)})
+            return int(f(x))
+        if is_float(v) and v[0] == "fn" and v[1] in ("ceil", "floor") and mode in ("ceil", "floor", "trunc"):
+            return conv_nearest(m, ref, args, t, sp)   # already integral: every rounding agrees
+        b = m.float_int_bounds(v) if hasattr(m, "float_int_bounds") else None
+        blo, bhi = b if b else (lo, hi)
+        s = m.ienv.new_sym(mode, max(lo, blo - 1), min(hi, bhi + 1))
+        return s
+    return h
+
+
+for _md in ("ceil", "floor", "trunc"):
+    BY_TRAIT[("easy_cast::traits::ConvFloat", "conv_" + _md)] = conv_round(_md)
+
+
+def iter_rposition(m, ref, args, t, sp):
+    r = args[0]
+    it = iter_of(m, load(m, r) if isinstance(r, VRef) else r, sp)
+    if not _pure_iter(it):
+        raise Unsupported("rposition of " + (it.kind if isinstance(it, VModel) else "?"))
+    items = []
+    while True:
+        x = model_next(m, it, sp, None)
+        if x is None:
+            break
+        items.append(x)
+    for i in range(len(items) - 1, -1, -1):
+        rr = m.call_closure(args[1], [items[i]], sp)
+        if not is_cond(rr):
+            raise Unsupported("rposition predicate")
+        if m.truth(rr, sp, "rposition"):
+            return some(i)
+    return none()
+
+
+def iter_rfind(m, ref, args, t, sp):
+    r = args[0]
+    it = iter_of(m, load(m, r) if isinstance(r, VRef) else r, sp)
+    if not _pure_iter(it):
+        raise Unsupported("rfind of impure iterator")
+    items = []
+    while True:
+        x = model_next(m, it, sp, None)
+        if x is None:
+            break
+        items.append(x)
+    for x in reversed(items):
+        c = Cell(x)
+        rr = m.call_closure(args[1], [VRef(c, (), False)], sp)
+        if is_cond(rr) and m.truth(rr, sp, "rfind"):
+            return some(x)
+    return none()
+
+
+BY_TRAIT[("core::iter::traits::iterator::Iterator", "rposition")] = iter_rposition
+BY_TRAIT[("core::iter::traits::double_ended::DoubleEndedIterator", "rfind")] = iter_rfind
+BY_TRAIT[("core::iter::traits::double_ended::DoubleEndedIterator", "rposition")] = iter_rposition
